@@ -100,6 +100,18 @@ func normRel(s string, sense bool) (string, bool) {
 	if !ok {
 		return s, sense
 	}
+	// x.Sign() is x.Cmp(0): one spelling
+	sign := func(x string) string {
+		const pre = "big.(*Int).Sign("
+		if strings.HasPrefix(x, pre) && strings.HasSuffix(x, ")") {
+			return "big.(*Int).Cmp(" + x[len(pre):len(x)-1] + ",big.NewInt(0))"
+		}
+		return x
+	}
+	if l2, r2 := sign(l), sign(r); l2 != l || r2 != r {
+		l, r = l2, r2
+		s = "(" + l + " " + op + " " + r + ")"
+	}
 	is3 := func(x string) bool {
 		return strings.HasPrefix(x, "big.(*Int).Cmp(") || strings.HasPrefix(x, "bytes.Compare(") || strings.HasPrefix(x, "strings.Compare(")
 	}
